@@ -19,11 +19,13 @@ import (
 	"math/rand"
 	"os"
 	"strconv"
+	"time"
 
 	. "github.com/pbenner/autodiff"
 	. "github.com/pbenner/autodiff/statistics"
 	"github.com/pbenner/autodiff/statistics/generic"
 	"github.com/pbenner/autodiff/statistics/matrixEstimator"
+	"github.com/pbenner/autodiff/statistics/scalarDistribution"
 	"github.com/pbenner/autodiff/statistics/scalarEstimator"
 	"github.com/pbenner/autodiff/statistics/vectorEstimator"
 	. "github.com/pbenner/threadpool"
@@ -999,7 +1001,12 @@ type numev struct {
 	Gnorm  int    `json:"gnorm"` // max |d/dtheta_k weighted log-likelihood| at the estimate, scaled by 1e9, capped
 	Err    bool   `json:"err"`
 	Seed   int64  `json:"seed"`
-	skip   bool
+	// the specification's "well posed" class: an interior maximiser exists, the start is admissible and the
+	// method is one that the library documents for the family - an error return is then not acceptable
+	Wellposed bool `json:"wellposed"`
+	Unmoved   bool `json:"unmoved"` // the returned parameters are bit-for-bit the start parameters
+	Start     string `json:"start"` // "near" | "far" (NumericEstimator runs)
+	skip      bool
 }
 
 // logistic regression (SAGA): the returned theta must be a stationary point of the class-weighted
@@ -1113,6 +1120,189 @@ func recordNumeric(trace *vh.Out, out *vh.Out, nruns int, seed int64) int {
 	return n0
 }
 
+// NumericEstimator (maximises the weighted log-likelihood of any ScalarPdf with newton / bfgs / rprop and the
+// library's AD): a run that returns without error must stop at a stationary point. The gradient is recomputed
+// here, independently of the estimator's objective function, from the data with the returned parameters as
+// Real64 variables of a fresh copy of the density.
+func recordNumericEstimator(trace *vh.Out, out *vh.Out, nruns int, seed int64) int {
+	type fam struct {
+		name string
+		mk   func(rng *rand.Rand) (ScalarPdf, error)
+		data func(rng *rand.Rand, n int) []float64
+		near func(rng *rand.Rand, x, w []float64) (ScalarPdf, error) // start within 10% of the moment estimates
+	}
+	moments := func(x, w []float64) (float64, float64) {
+		sw, sx, sxx := 0.0, 0.0, 0.0
+		for i := range x {
+			sw += w[i]
+			sx += w[i] * x[i]
+			sxx += w[i] * x[i] * x[i]
+		}
+		m := sx / sw
+		return m, math.Max(sxx/sw-m*m, 1e-3)
+	}
+	jit := func(rng *rand.Rand) float64 { return 0.9 + 0.2*rng.Float64() }
+	pos := func(rng *rand.Rand, n int) []float64 {
+		x := make([]float64, n)
+		for i := range x {
+			x[i] = math.Round((0.25+rng.ExpFloat64()*2)*16) / 16
+		}
+		return x
+	}
+	real := func(rng *rand.Rand, n int) []float64 {
+		x := make([]float64, n)
+		for i := range x {
+			x[i] = math.Round((1+2*rng.NormFloat64())*16) / 16
+		}
+		return x
+	}
+	fams := []fam{
+		{"gamma", func(rng *rand.Rand) (ScalarPdf, error) {
+			return scalarDistribution.NewGammaDistribution(NewFloat64(1+rng.Float64()), NewFloat64(0.5+rng.Float64()))
+		}, pos, func(rng *rand.Rand, x, w []float64) (ScalarPdf, error) {
+			m, v := moments(x, w)
+			return scalarDistribution.NewGammaDistribution(NewFloat64(m*m/v*jit(rng)), NewFloat64(m/v*jit(rng)))
+		}},
+		{"normal", func(rng *rand.Rand) (ScalarPdf, error) {
+			return scalarDistribution.NewNormalDistribution(NewFloat64(rng.Float64()), NewFloat64(1+rng.Float64()))
+		}, real, func(rng *rand.Rand, x, w []float64) (ScalarPdf, error) {
+			m, v := moments(x, w)
+			return scalarDistribution.NewNormalDistribution(NewFloat64(m+0.1*math.Sqrt(v)*(jit(rng)-1)), NewFloat64(math.Sqrt(v)*jit(rng)))
+		}},
+		{"exponential", func(rng *rand.Rand) (ScalarPdf, error) {
+			return scalarDistribution.NewExponentialDistribution(NewFloat64(0.5 + rng.Float64()))
+		}, pos, func(rng *rand.Rand, x, w []float64) (ScalarPdf, error) {
+			m, _ := moments(x, w)
+			return scalarDistribution.NewExponentialDistribution(NewFloat64(jit(rng) / m))
+		}},
+		{"cauchy", func(rng *rand.Rand) (ScalarPdf, error) {
+			return scalarDistribution.NewCauchyDistribution(NewFloat64(rng.Float64()), NewFloat64(1+rng.Float64()))
+		}, real, nil},
+	}
+	methods := []string{"newton", "bfgs", "rprop"}
+	wd := vh.NewWatchdog(60*time.Second, out, vh.M{"engine": "estim", "scenario": "numeric-estimator"})
+	n0 := 0
+	for i := 0; i < nruns; i++ {
+		rseed := seed*5000011 + int64(i)
+		rng := rand.New(rand.NewSource(rseed))
+		f := fams[i%len(fams)]
+		method := methods[(i/len(fams))%len(methods)]
+		weighted := (i/(len(fams)*len(methods)))%2 == 1
+		n := 8 + rng.Intn(30)
+		x := f.data(rng, n)
+		var gamma ConstVector
+		w := make([]float64, n)
+		for k := range w {
+			w[k] = 1
+		}
+		if weighted {
+			g := make([]float64, n)
+			for k := range g {
+				w[k] = float64(1 + rng.Intn(4))
+				g[k] = math.Log(w[k])
+			}
+			gamma = NewDenseFloat64Vector(g)
+		}
+		ev := numev{E: "numeric", Family: "numeric-" + f.name + "-" + method, N: n, Seed: rseed}
+		// near: the start is within 10% of the moment estimates (every first step is admissible); far: a random
+		// admissible start, where the optimizers may fail on their first line search
+		nearStart := f.near != nil && (i/(2*len(fams)*len(methods)))%2 == 0
+		ev.Start = "far"
+		if nearStart {
+			ev.Start = "near"
+		}
+		ev.Wellposed = nearStart && method != "bfgs"
+		if weighted {
+			ev.Cw = 1
+		}
+		wd.Begin(vh.M{"family": ev.Family, "seed": rseed})
+		msg := vh.Try(func() {
+			pdf, err := f.mk(rng)
+			if nearStart {
+				pdf, err = f.near(rng, x, w)
+			}
+			if err != nil {
+				ev.Err = true
+				return
+			}
+			est, err := scalarEstimator.NewNumericEstimator(pdf)
+			if err != nil {
+				ev.Err = true
+				return
+			}
+			start := est.GetParameters().CloneVector()
+			est.Method = method
+			est.Epsilon = 1e-9
+			if method == "rprop" {
+				// sign-based steps cannot reach 1e-9: the run would end with "step size underflow"
+				est.Epsilon = 1e-6
+			}
+			est.MaxIterations = 5000
+			if err := est.EstimateOnData(NewDenseFloat64Vector(x), gamma, ThreadPool{}); err != nil {
+				if os.Getenv("ESTIM_NUMDEBUG") != "" {
+					fmt.Fprintln(os.Stderr, ev.Family, rseed, "error:", err)
+				}
+				ev.Err = true
+				return
+			}
+			d, err := est.GetEstimate()
+			if err != nil {
+				ev.Err = true
+				return
+			}
+			ev.Unmoved = true
+			for k := 0; k < start.Dim(); k++ {
+				if start.Float64At(k) != d.GetParameters().Float64At(k) {
+					ev.Unmoved = false
+				}
+			}
+			q := d.CloneScalarPdf()
+			th := AsDenseReal64Vector(q.GetParameters())
+			if err := th.Variables(1); err != nil {
+				panic(err)
+			}
+			if err := q.SetParameters(th); err != nil {
+				ev.Err = true
+				return
+			}
+			t := NullReal64()
+			g := make([]float64, th.Dim())
+			for k := range x {
+				if err := q.LogPdf(t, ConstFloat64(x[k])); err != nil {
+					ev.Err = true
+					return
+				}
+				for a := range g {
+					g[a] += w[k] * t.GetDerivative(a)
+				}
+			}
+			if os.Getenv("ESTIM_NUMDEBUG") != "" {
+				fmt.Fprintln(os.Stderr, ev.Family, rseed, "weighted", weighted, "n", n, "start", start, "theta", d.GetParameters(), "grad", g)
+			}
+			gm := 0.0
+			for _, v := range g {
+				if math.IsNaN(v) {
+					gm = math.Inf(1)
+				}
+				gm = math.Max(gm, math.Abs(v))
+			}
+			if gm*1e9 > 2e9 {
+				ev.Gnorm = 2000000000
+			} else {
+				ev.Gnorm = int(gm * 1e9)
+			}
+		})
+		wd.End()
+		if msg != "" {
+			vh.Mismatch(out, vh.M{"engine": "estim", "what": "panic", "scenario": ev.Family}, vh.M{"mode": "numeric", "seed": rseed, "panic": msg})
+			ev.Err = true
+		}
+		trace.Put(ev)
+		n0++
+	}
+	return n0
+}
+
 func record(args []string) {
 	trace := vh.NewOut(args[0])
 	defer trace.Close()
@@ -1206,6 +1396,7 @@ func record(args []string) {
 	nnum := 0
 	if only == "" {
 		nnum = recordNumeric(trace, out, nruns/4+8, seed)
+		nnum += recordNumericEstimator(trace, out, nruns/8+24, seed)
 	}
 	vh.Summary(out, vh.M{"runs": runs, "events": events + nnum, "numeric_runs": nnum})
 }
